@@ -187,13 +187,14 @@ Definition vtriple (p : list Z * list Z * Z) : outcome :=
   let '(lo, hi, c) := p in Val [lo; hi; vbool (choice_to_bool c)].
 Definition vchoice (c : Z) : outcome := Val [vbool (choice_to_bool c)].
 
-(* From<iN> for Int<T>: the inherent constructor asserts LIMBS >= 1; the trait form additionally
-   debug_asserts the limb count (only visible in the debug profile for i128 into one limb) *)
+(* From<iN> for Int<T>: the inherent constructors assert LIMBS >= 1 *)
 Definition int_from_prim_op (bits : Z) (a : list (list Z)) : outcome :=
   let t := nat_arg 1 a in
   match t with O => PanicV | _ => Val [int_from_prim bits t (sarg 0 a)] end.
+(* from_i128 asserts LIMBS >= 2 (both profiles); From<i128> debug_asserts the same and then calls it *)
 Definition int_from_i128_op (a : list (list Z)) : outcome :=
-  Val [int_from_i128 (nat_arg 1 a) (nth 0 (arg 0 a) 0) (nth 1 (arg 0 a) 0)].
+  if (nat_arg 1 a <? 2)%nat then PanicV
+  else Val [int_from_i128 (nat_arg 1 a) (nth 0 (arg 0 a) 0) (nth 1 (arg 0 a) 0)].
 
 Definition ops_intarith_model : list (string * opfn) := [
   ("sint.checked_add", fun _ a => vopt (int_checked_add (arg 0 a) (arg 1 a)));
@@ -234,8 +235,7 @@ Definition ops_intarith_model : list (string * opfn) := [
   ("sint.from_i32", fun _ a => int_from_prim_op 32 a);
   ("sint.from_i64", fun _ a => int_from_prim_op 64 a);
   ("sint.from_i128", fun _ a => int_from_i128_op a);
-  ("sint.from_i128_trait", fun (dbg : bool) a =>
-     if dbg && (nat_arg 1 a <? 2)%nat then PanicV else int_from_i128_op a);
+  ("sint.from_i128_trait", fun _ a => int_from_i128_op a);
   ("sint.to_prim", fun _ a => Val [arg 0 a]);
   (* ZERO, ONE, MINUS_ONE (= FULL_MASK), MIN (= SIGN_MASK), MAX at the width given by the scalar argument *)
   ("sint.consts", fun _ a => let n := nat_arg 0 a in
@@ -297,9 +297,11 @@ Definition ops_intarith_spec : list (string * opfn) := [
   ("sint.from_i16", fun _ a => if (nat_arg 1 a =? 0)%nat then PanicV else isp_panicking (nat_arg 1 a) (prim_sval 16 (sarg 0 a)));
   ("sint.from_i32", fun _ a => if (nat_arg 1 a =? 0)%nat then PanicV else isp_panicking (nat_arg 1 a) (prim_sval 32 (sarg 0 a)));
   ("sint.from_i64", fun _ a => if (nat_arg 1 a =? 0)%nat then PanicV else isp_panicking (nat_arg 1 a) (prim_sval 64 (sarg 0 a)));
-  ("sint.from_i128", fun _ a => isp_panicking (nat_arg 1 a) (seval (resize 2 (arg 0 a))));
-  ("sint.from_i128_trait", fun (dbg : bool) a =>
-     if dbg && (nat_arg 1 a <? 2)%nat then PanicV else isp_panicking (nat_arg 1 a) (seval (resize 2 (arg 0 a))));
+  (* i128: documented panic (assertion) when the target has fewer than two limbs; exact otherwise *)
+  ("sint.from_i128", fun _ a =>
+     if (nat_arg 1 a <? 2)%nat then PanicV else isp_val (nat_arg 1 a) (seval (resize 2 (arg 0 a))));
+  ("sint.from_i128_trait", fun _ a =>
+     if (nat_arg 1 a <? 2)%nat then PanicV else isp_val (nat_arg 1 a) (seval (resize 2 (arg 0 a))));
   ("sint.to_prim", fun _ a => isp_val (ln 0 a) (sv 0 a));
   ("sint.consts", fun _ a => let n := nat_arg 0 a in
      Val [to_limbs_s n 0; to_limbs_s n 1; to_limbs_s n (-1); to_limbs_s n (- (Bn n / 2)); to_limbs_s n (Bn n / 2 - 1)]);
